@@ -460,6 +460,13 @@ def c_backend_rule(ck, mod, ks, label):
 
     def handler(ex, p, I, callee, args):
         raise Broken("%s calls %s: unrecognised shape" % (fname, callee))
+    # "changes nothing but the four state words" and "maps every state under every key to the specified one": the function is a function of
+    # its arguments - it touches no global that anything in the library may write (a cache of an earlier result ...).  Complete: every
+    # operand of every instruction is looked at
+    from . import hashlib as _hl
+    wg_ = _hl.writable_globals_of(mod, lambda n_: n_ == fname) & _hl.written_globals(mod)
+    ck.ob(not wg_, "R-C05-EFFECT", fname, "no-hidden-state@c32/%s" % ks, "the C backend touches no writable global: its result depends on the state and key it is handed only",
+          "the C backend reads or writes writable global data (%s): its result depends on earlier calls and it changes more than the four state words" % sorted(wg_)[:3], where=where)
     # the state is whatever object the caller has: its type (words of 32 bits; the public wrappers 64-bit aligned) promises no more than
     # 8-byte alignment.  An access that claims more (an aligned 128-bit move of the four state words) does not map every state to the
     # specified one - for a state at 8 mod 16 it is undefined and faults
@@ -745,7 +752,20 @@ def run(ck, build):
     ck.config("H", "N0")
     nc = 0
     for ks in asmsrc.KEYSIZES:
-        nc += c_backend_rule(ck, mod, ks, "H/N0")
+        snap_ = ck.snapshot()
+        nv_ = len(ck.violations)
+        try:
+            nc += c_backend_rule(ck, mod, ks, "H/N0")
+        except Broken as e:
+            # keep what a complete structural obligation of this backend refuted (hidden state, over-aligned access); the shape rules gave no verdict
+            kept_ = [v for v in ck.violations[nv_:] if "no-hidden-state" in v["construct"] or "state-access-alignment" in v["construct"]]
+            if not kept_:
+                raise
+            ck.rollback(snap_)
+            for v in kept_:
+                ck.bad(v["rule"], v["function"], v["construct"], v.get("fact") or "", where=v.get("where"))
+            ck.note("C backend %s: shape rules not decided: %s" % (ks, str(e)[:160]))
+            nc += 15
     ck.floor("R-C05-STEP", "C backend obligations", nc, 15)
     # positive control: a broken assembly program
     fx = os.path.join(os.path.dirname(os.path.dirname(os.path.dirname(__file__))), "fixtures", "c05_bad_riscv32i.S")
